@@ -257,9 +257,17 @@ class Unit:
                 bo = vk[0] + 2
                 while toks[bo].text != '{':
                     bo += 1
-                items = [it for it in scan_items(osrc, bo + 1, match_close(toks, bo)) if it['kind'] == 'fn']
+                top = list(scan_items(osrc, bo + 1, match_close(toks, bo)))
+                items = [it for it in top if it['kind'] == 'fn']
                 for nm in ch[2]:
-                    found = [it for it in items if it['name'] == nm]
+                    if '::' in nm:
+                        ty, fname = nm.rsplit('::', 1)
+                        found = []
+                        for imp in top:
+                            if imp['kind'] == 'impl' and imp['body_open'] is not None and re.search(r'(^|[^A-Za-z0-9_])%s($|[^A-Za-z0-9_])' % re.escape(ty), imp['header'] or ''):
+                                found += [it for it in scan_items(osrc, imp['body_open'] + 1, imp['end']) if it['kind'] == 'fn' and it['name'] == fname]
+                    else:
+                        found = [it for it in items if it['name'] == nm]
                     if len(found) != 1:
                         raise Lost('import-spec %s :: %s at %s: %d matches' % (ch[1], nm, ch[3], len(found)))
                     it = found[0]
@@ -449,14 +457,24 @@ def classify(unit, res, gen_file):
         msg = d.get('message', '')
         spans = []
         for s0 in d.get('spans', []):
+            chain = []
             s1 = s0
             while s1 is not None:
                 if os.path.basename(s1['file_name']) == base:
-                    s2 = dict(s1)
-                    s2['is_primary'] = s0.get('is_primary')
-                    spans.append(s2)
-                    break
+                    chain.append(s1)
                 s1 = (s1.get('expansion') or {}).get('span')
+            # a VC inside a macro body lifted into this file: attribute it to the call site that an obligation owns
+            pick = None
+            for c in chain:
+                if unit.owner(c['line_start']) is not None or unit.canary_owner(c['line_start']) is not None:
+                    pick = c
+                    break
+            if pick is None and chain:
+                pick = chain[0]
+            if pick is not None:
+                s2 = dict(pick)
+                s2['is_primary'] = s0.get('is_primary')
+                spans.append(s2)
         prim = [s for s in spans if s.get('is_primary')]
         owner = None
         site = None
